@@ -7,6 +7,7 @@ import (
 	"reflect"
 
 	"github.com/advancedclimatesystems/gonnx/onnx"
+	"google.golang.org/protobuf/proto"
 	"gorgonia.org/tensor"
 )
 
@@ -283,6 +284,46 @@ func genC12(e *emitter, tier string) {
 			g := &GraphJ{Inputs: []VInfoJ{{Name: "x", Dt: "f32", Dims: []any{2}}}, Inits: is,
 				Nodes: []NodeJ{{Op: "Relu", Ins: []string{"x"}, Outs: []string{"y"}}}, Outputs: append([]string{"y"}, outs...)}
 			e.emit(graphCase("identical-payloads", g, []NamedT{{"x", vals("f32", []int{2}, 1, -1)}}))
+		}
+	}
+	// whole models: one initializer among several that cannot be decoded (count mismatch, unsupported element
+	// type, negative extent, no payload), at EVERY position of the list, next to well-formed ones: loading reports
+	// the error whichever initializer it is and whatever follows it
+	{
+		mk := func(n int, bad int, how int) []byte {
+			g := &GraphJ{Inputs: []VInfoJ{{Name: "x", Dt: "f32", Dims: []any{2}}},
+				Nodes: []NodeJ{{Op: "Relu", Ins: []string{"x"}, Outs: []string{"y"}}}, Outputs: []string{"y"}}
+			for i := 0; i < n; i++ {
+				dt := []string{"f32", "i64", "f64", "i32"}[i%4]
+				g.Inits = append(g.Inits, InitJ{Name: fmt.Sprintf("w%d", i), T: seqT(dt, []int{2, 1 + i%3}, func(k int) float64 { return float64(k + i) }), Raw: i%2 == 1})
+			}
+			mp := buildModelProto(g)
+			if bad >= 0 {
+				tp := mp.Graph.Initializer[bad]
+				switch how {
+				case 0:
+					tp.Dims = []int64{3, 5}
+				case 1:
+					tp.DataType = 8 // string
+				case 2:
+					tp.Dims = []int64{-2, -1}
+				case 3:
+					tp.FloatData, tp.Int64Data, tp.DoubleData, tp.Int32Data, tp.RawData = nil, nil, nil, nil, nil
+					tp.Dims = []int64{2, 2}
+				case 4:
+					tp.DataType = 10 // float16
+				}
+			}
+			b, _ := proto.Marshal(mp)
+			return b
+		}
+		for _, n := range []int{1, 2, 3, 5} {
+			e.emit(loadCase("initializer-list", mk(n, -1, 0), fmt.Sprint(n, "all well-formed")))
+			for bad := 0; bad < n; bad++ {
+				for how := 0; how < 5; how++ {
+					e.emit(loadCase("initializer-list", mk(n, bad, how), fmt.Sprint(n, bad, how)))
+				}
+			}
 		}
 	}
 	// signed dims sweep: every tuple of rank 1..3 over small signed extents, with a payload of |product|
